@@ -69,7 +69,7 @@ def closes_own_param(ctx, u: Unit, pname: str) -> bool:
     entry to exit it awaits ``<pname>.aclose()`` or takes an edge on which the object is known
     to have no ``aclose``; it suspends nowhere else.  Lets a per-iterator cleanup helper live
     anywhere in the package (``await _close(it)``)."""
-    if u.kind != "coroutine" or pname not in u.param_names():
+    if u.kind not in ("coroutine", "sync") or pname not in u.param_names():
         return False
     memo = ctx.__dict__.setdefault("_closes_own_param", {})
     key = (id(u.node), pname)
@@ -79,8 +79,11 @@ def closes_own_param(ctx, u: Unit, pname: str) -> bool:
     v = ctx.inlined(u)
     cfg = cfg_of(v)
     closes = set()
+    # a coroutine awaits the close; a plain function hands the close awaitable to its caller
+    # (``return it.aclose()``), who awaits it (``await helper(it)``, _is_close_helper_await)
+    closing = "await" if u.kind == "coroutine" else "return"
     for n in cfg.nodes:
-        if n.kind == "await" and not n.tag and _names_aclose(ctx, v, n.info.get("value"), n):
+        if n.kind == closing and not n.tag and _names_aclose(ctx, v, n.info.get("value"), n):
             recv = _aclose_receiver(ctx, v, n.info.get("value"), n)
             if isinstance(recv, ast.Name) and recv.id == pname:
                 closes.add(n)
@@ -125,7 +128,7 @@ def _is_close_helper_await(ctx, unit: Unit, n: Node, src: Optional[str]) -> bool
             target = ctx.pkg.lib_unit(f[1])
         elif f[0] == "bound":
             target, off = ctx.vals.find_method(f[1], f[2]), 1
-        if target is None or target.kind != "coroutine":
+        if target is None or target.kind not in ("coroutine", "sync"):
             continue
         names = target.param_names()[off:] if not target.is_static() else target.param_names()
         if len(call.args) != 1 or not names:
